@@ -6,12 +6,18 @@ VERIF = os.path.dirname(os.path.dirname(os.path.abspath(__file__)))
 CLAIMED = {
  "C02": ("exploration", "7 C02", "Seeded write histories (inserts, updates that change/add/remove indexed fields including nested paths, deletes, reopen) on a real shard with string (both case sensitivities), string-array, integer and float indexes under seeded schedules of the write pipeline; after every write a seeded panel of filter queries (every operator, boundary operands, _and/_or trees to depth 3, _id lookups) is asked of the warm instance and periodically of a cold copy of the file; the returned id set must equal the set computed by an independent evaluator over the reference model (IEEE comparison for numbers, byte order of the possibly folded string for strings). Only tolerance: a zero compared with a zero of the opposite sign may fall either way. Evidence, not proof.",
          "deterministic simulation: seeded scheduler + reference-model evaluator of every filter operator (exact set equality)"),
+ "C03": ("exploration", "7 C03", "Seeded write histories on a real shard with a Vamana index (all metrics, quantiser none / binary fixed / binary learned, legal parameters) built by 1-4 insert workers that the seeded scheduler interleaves at every node lock, cache mutex and storage operation; after every write seeded graph queries are asked of warm and cold instances. Always checked: results live, carry the field, inside the pre-filter, distinct, <= limit, non-decreasing distance, distance = index distance recomputed from the definition (quantised form from persisted parameters), hybrid = -weight*distance, no error. Exact tie-tolerant k-NN demanded in the two regimes the property names. Product quantiser not generated in quick/thorough (needs >= 1000 points).",
+         "deterministic simulation: seeded interleaving of graph insert workers + validity and exact-regime k-NN oracles"),
  "C04": ("exploration", "7 C04", "Seeded write histories (inserts, vector updates and removal, deletes, reopen, eviction) on a real shard with a flat vector index (six metrics; quantiser none / binary fixed / binary learned with a small trigger so that training happens mid-history) under seeded schedules; after every write seeded queries (limits 1..75, weights, pre-filters) are asked of the warm instance and of cache-disabled and cold instances opened on copies of the file; every answer must be the exact tie-tolerant limit-NN of the reference model with distances recomputed in float64 from the metric definitions (quantised form from the persisted threshold), hybrid = -weight*distance. Product quantiser (needs >= 1000 points) only in validity mode. Evidence, not proof.",
          "deterministic simulation: seeded scheduler + exact k-NN reference model over warm / cold / cache-disabled instances"),
  "C05": ("exploration", "7 C05", "Seeded histories that insert, rewrite, blank out and delete text fields on a real shard with a text index under seeded schedules of 1-4 analysis workers and the index writer; after every write seeded text queries (both operators, repeated / stop-word-only / mixed-case / unicode terms, limits, weights, pre-filters) are compared on warm and cold instances with an independent tf-idf computation over the model corpus (bleve's standard analyser is the shared dependency): exact match set, tie-tolerant top-limit cut, scores within 1e-4, hybrid = weight*score. A containsAll query that analyses to zero terms is only required not to fail.",
          "deterministic simulation: seeded scheduler + independent tf-idf reference computation"),
  "C06": ("exploration", "7 C06", "Seeded histories then seeded composite requests (_or/_and trees of vector, text and filter sub-queries with arbitrary weights, select lists incl. colliding and absent paths, up to 4 sort keys, offsets beyond the result size, limits) on a real shard; sub-query goroutines of searchParallel run under the seeded scheduler. The model evaluates the tree (set algebra over tie-free model sub-results, summed weighted contributions); the un-paged answer is checked for set equality, hybrid scores, projections and order consistency with the documented comparator, the page by a tie-tolerant rank-bound check. Requests whose answer the statement leaves open are skipped and counted.",
          "deterministic simulation: seeded scheduler + reference evaluator of query trees, select, sort and paging"),
+ "C08": ("exploration", "7 C08", "One seeded history of successful batches is executed independently under several configurations of the same real shard code (unlimited cache, tiny cache limit forcing LRU pruning, cache disabled, reopen after every batch, explicit release after every batch, in-memory backend), each under its own seeded schedule. After every batch every configuration is audited against the model; each file-backed one must give the same panel answers from the live instance and from a cold instance on a copy of its file (durability, warm == cold, incl. quantised and graph indexes); across configurations exact-semantics queries must agree with the unlimited-cache configuration (graph queries excluded: independently built graphs legitimately differ).",
+         "deterministic simulation: differential execution across cache configurations / backends / restart points + reference model"),
+ "C10": ("exploration", "7 C10", "Seeded histories (large inserts, updates that add/change/remove the vector field in one batch, deletes of a point with all its out-neighbours read from the previous dump, re-insertion into freed node ids, reopen) on a real shard with a Vamana index; insert workers interleaved and map orders permuted by the simulator. After every successful write the committed file is dumped with bbolt directly and structural invariants are checked: node set = vector set = entry + live points with the field, edges to existing other nodes, degree bound, recorded max node id, uuid<->node id bijection equal to the model, free list vs live ids, stored plain vectors.",
+         "deterministic simulation: seeded scheduler + structural invariants over raw bucket dumps after every write"),
  "C07": ("fault_enumeration", "7 C07", "For sampled (history, schedule) pairs a fault-free dry run counts the storage operations of a target write batch; then one fault per simulated process life: validation rejections, error from the k-th put/delete/scan/bucket-open, commit failure, disk full and meta-write failure (bbolt's own gofail failpoints), process kill at the k-th storage operation / before commit / between data and meta sync / after commit. Quick samples 5 faults per history; thorough additionally enumerates every kind x every k of the batch for a third of the histories (exhaustive for that batch). Oracle: failed call => warm answers, cold answers on a file copy and the logical file digest equal the pre-batch state and the rest of the history still behaves; success => post-batch state; kill => the reopened file is exactly the pre- or post-batch state as the crash point dictates; any panic in any goroutine or use of a storage handle after its transaction ended is a violation.",
          "deterministic simulation + storage fault / crash-point enumeration (storage proxy, bbolt gofail failpoints), pre/post-state refinement oracle"),
  "C01": ("exploration", "7 C01", "Seeded histories of insert/update/delete/reopen/evict batches on a real shard (bbolt or memory backend) under seeded schedules of its internal pipeline goroutines; after every batch the complete stored state (id set, every document, point count) and every call's return values are compared with an independent reference model. Evidence, not proof: sampling of histories x schedules.",
